@@ -431,8 +431,47 @@ impl WriteSource for pr::Expr {
     #[verifier::external_body] fn write(&self, opt: WriteOpt) -> (r: Option<String>) { unimplemented!() }
 }
 """
+    # ---- ExprKind::write, FuncCall arm: which WriteOpt the arguments are printed with
+    fc = X.arm_body(AST, "write", "FuncCall(func_call) =>", name="call_args", after="impl WriteSource for pr::ExprKind")
+    m_n = re.search(r"for \(name, arg\) in &func_call\.named_args \{(.*?)\n                \}", fc.text, re.S)
+    m_p = re.search(r"for arg in &func_call\.args \{(.*?)\n                \}", fc.text, re.S)
+    if not m_n or not m_p or "opt.unbound_expr = true;" not in fc.text[:m_n.start()]:
+        raise ExtractionError("FuncCall arm of ExprKind::write: `opt.unbound_expr = true;` followed by the loops over named_args and args not recognised")
+    colon = m_n.group(1).find('r += opt.consume(":")?;')
+    if colon < 0:
+        raise ExtractionError("FuncCall arm: `r += opt.consume(\":\")?;` not found in the loop over the named arguments")
+    pieces = []
+    for nm, text, lab, lead in (("named_arg_value", m_n.group(1)[colon + len('r += opt.consume(":")?;'):], "FA1", "Seq::<char>::empty(), "), ("positional_arg", m_p.group(1), "FA2", '" "@, ')):
+        for pat, rep in ((r"\bopt\.clone\(\)", "clone_opt(&opt)"), (r"\bopt\.consume\(", "opt_consume(&mut opt, "), (r"\br \+= ([^;]+);", r"str_append(&mut r, \1);")):
+            text = re.sub(pat, rep, text)
+        text = re.sub(r"\b(\w+)\.clone\(\)", r"clone_opt(&\1)", text)
+        # proof hint: the line width the value is printed with is the one left after one of the `consume` calls (or the initial one): ghost copies, tried in turn
+        stmts = text.split(";")
+        ghosts = ["verif_rw_init"]
+        for k in range(len(stmts) - 1):
+            if "opt_consume(" in stmts[k]:
+                ghosts.append("verif_rw%d" % k)
+                stmts[k] += "; let ghost verif_rw%d = opt.rem_width" % k
+        text = ";".join(stmts)
+        hint = ("    proof { assert(%s); let ghost res_g = Some(r); assert(res_g->0 == r); assert(exists|rw: u16| call_arg_ok(*this, *arg0, opt0, r0@, %sres_g->0@, rw)); } // @%s\n"
+                % (" || ".join("call_arg_ok(*this, *arg0, opt0, r0@, %sr@, %s)" % (lead, g) for g in ghosts), lead, lab))
+        pieces.append("pub fn %s(this: &pr::ExprKind, arg0: &pr::Expr, opt0: WriteOpt, r0: String) -> (res: Option<String>)\n"
+                      "    requires opt0.unbound_expr,      // the arm sets it before the loops (checked on the text)\n"
+                      "    ensures\n"
+                      "        // an argument of a call is printed in the context of the call - at least the call's binding strength, and marked as following other tokens -\n"
+                      "        // which is what puts a nested call, a lambda or a leading unary operator into parentheses (rw: the line width left, which only affects wrapping)\n"
+                      "        res is Some ==> exists|rw: u16| call_arg_ok(*this, *arg0, opt0, r0@, %sres->0@, rw), // @%s\n"
+                      "{\n    let mut opt = opt0; let mut r = r0; let arg = arg0; let self_ = this; let ghost verif_rw_init = opt0.rem_width;\n" % (nm, lead, lab)
+                      + text.replace(", self, ", ", self_, ") + "\n" + hint + "    Some(r)\n}\n")
+    fc.rewrites.append({"rule": "slice", "what": "FuncCall arm of <pr::ExprKind as WriteSource>::write: the statements that print the VALUE of a named argument (after the `:`) and the body of the "
+                        "loop over the positional arguments, each wrapped as a fn(this, arg, opt, r) -> Option<String>; same R5 shims as the Binary arm; ghost copies of opt.rem_width after "
+                        "each consume as witnesses"})
+    fc.text = ("pub open spec fn call_arg_ok(this: pr::ExprKind, arg: pr::Expr, opt: WriteOpt, r0: Seq<char>, lead: Seq<char>, text: Seq<char>, rw: u16) -> bool {\n"
+               "    let w = arg.written(WriteOpt { context_strength: (if opt.context_strength >= spec_binding_strength(&this) { opt.context_strength } else { spec_binding_strength(&this) }), rem_width: rw, ..opt });\n"
+               "    w is Some && text == r0 + lead + w->0@\n}\n"
+               + "\n".join(pieces))
     body = (pr_mod + wo.text + "\n" + pos.text + "\n" + MID + "\n".join(twins) + pratt_fn + kw_fn + ORACLE +
-            "\n".join(fns) + "\n" + np.text + "\n" + ww.text + "\n" + ident_shim + wip.text + "\n" + lex_kw_fn + dip_shim + dip.text + "\n" + ba_shim + ba.text + "\n" + qs.text + "\n" + table)
+            "\n".join(fns) + "\n" + np.text + "\n" + ww.text + "\n" + ident_shim + wip.text + "\n" + lex_kw_fn + dip_shim + dip.text + "\n" + ba_shim + ba.text + "\n" + fc.text + "\n" + qs.text + "\n" + table)
     return PRELUDE + body + "\n} // verus!\nfn main() {}\n"
 
 
@@ -468,8 +507,8 @@ def DYNAMIC_LABELS():
     return ["FP2.%s" % k for k in lexer_keywords(X)] + ["FP3.%s" % k for k in lexer_keywords(X)]
 
 
-LABELS = ["BS1", "AC1", "CB1", "NPF", "WW1", "WI1", "WI2", "DI1", "DI2", "BA1", "QS2a", "QS2b"] + rows()[1] + ["PP1.%s" % o for o in BINOPS]
-FUNCTIONS = ["binding_strength", "associativity", "can_bind_left", "needs_parenthesis", "write_within", "write_ident_part", "display_ident_part", "binary_arm", "next_odd_slice"]
+LABELS = ["BS1", "AC1", "CB1", "NPF", "WW1", "WI1", "WI2", "DI1", "DI2", "BA1", "FA1", "FA2", "QS2a", "QS2b"] + rows()[1] + ["PP1.%s" % o for o in BINOPS]
+FUNCTIONS = ["binding_strength", "associativity", "can_bind_left", "needs_parenthesis", "write_within", "write_ident_part", "display_ident_part", "binary_arm", "named_arg_value", "positional_arg", "next_odd_slice"]
 
 
 # ----------------------------------------------------------------------------- thorough tier: witness sweep on the real formatter
@@ -559,6 +598,9 @@ ROUNDTRIP = [
     'from t\nderive {neg_sq = -(d ** 2), decay = -(2 ** s) + o, p = (-d) ** 2}\n',
     'from t\nfilter (a | in (2 ** 3)..50)\nderive {m = (a + b) * c, n = a - (b - c), q = a / (b * c)}\n',
     'from t\nderive {v1 = a - (b + c), v2 = a / (b * c), v3 = a % (b * c), v4 = a + (b + c), v5 = a ?? (b ?? c)}\n',
+    # arguments of a call that are calls, lambdas or start with a unary operator - positional and named
+    'let scale = func x factor:1 -> x * factor\nlet double = func x -> x * 2\nfrom t\nselect {v = (scale a factor:(double b)), w = (scale (double a) factor:(-b)), u = (scale (-a))}\n',
+    'from t\nsort {(-a)}\nwindow rows:(-2)..2 (derive {m = average (a + 1)})\n',
 ]
 
 # the documented precedence table (statement of C02): an expression without parentheses means the tree on the right
